@@ -136,11 +136,14 @@ LEVEL_TEXT["C05"] = {
 LEVEL_TEXT["C18"] = {
     "text": "Monotonicity theorems for the prefix order on windows (same buffer, smaller stop): range reads, integer reads, every generated "
             "struct program, find_shdrs/find_phdrs, minimal_parse (prefix opens => whole file opens to the same header and the same table "
-            "windows), section_data, segment_data, typed sections, section_headers_with_strtab, symbol tables: an Ok answer on the prefix is "
-            "the answer on the whole file; corollary: error-or-same. Correspondence runs the model on a genuinely truncated copy of each "
-            "generated file at many prefix lengths (all lengths for a third of the files in thorough) and on files with appended bytes.",
-    "note": COMMON_NOTE + " Accessors not yet covered by a monotonicity theorem (find_common_data, symbol_version_table, notes views, dynamic) are covered by the correspondence and the per-query oracle only.",
-    "technique": "Lean 4 proof of monotonicity in the prefix order + differential correspondence on every sampled prefix",
+            "windows), and EVERY ElfBytes accessor: section_data, segment_data, the typed views (strtab, rel, rela, notes, dynamic), segment "
+            "notes, section_headers_with_strtab, section_header_by_name, symbol_table/dynamic_symbol_table, dynamic (section and PT_DYNAMIC "
+            "routes), symbol_version_table (incl. verneed/verdef records), find_common_data (loop body, scan, fallback): an Ok answer on the "
+            "prefix is the answer on the whole file; corollary: error-or-same; read the other way, appending bytes changes no answer. "
+            "Correspondence runs the model and the real parsers (slice and stream) on a genuinely truncated copy of each generated file at "
+            "many prefix lengths (all lengths for a third of the files in thorough) and on files with appended bytes.",
+    "note": COMMON_NOTE + " The stream parser's prefix behaviour is covered by the correspondence (sprefix stream) and, for queries that succeed on the slice parser, by the C07 simulation; it has no separate monotonicity theorem.",
+    "technique": "Lean 4 proof of monotonicity in the prefix order for every slice accessor + differential correspondence on every sampled prefix (slice and stream)",
 }
 LEVEL_TEXT["C20"] = {
     "text": "Theorems: every typed view (strtab, rel, rela, notes, dynamic, segment notes) returns UnexpectedSectionType/SegmentType(found, "
